@@ -210,6 +210,22 @@ Theorem bind_raises_sends_nothing : forall V s body k,
 Proof. exact bind_raise_nothing. Qed.
 
 (* ------------------------------------------------------------------------------------ *)
+(* Multi-packet operations (Buffer.send_list / new_send_list, model [stream_msgs]): the '/b_setn' packets carry the
+   list exactly once, in order; every packet announces exactly the number of values it carries (1..1626) and packet k
+   starts at start + k * 1626.  (That each packet conforms and names a known buffer is part of emitted_conform /
+   ids_only_allocated, which cover OBufSendList, OBufNewSendList and OBufGetToList like every other op.) *)
+Theorem send_list_packets_tile_the_list : forall num fuel l pos, (List.length l <= fuel)%nat ->
+  flat_map packet_values (stream_msgs fuel num pos l) = l.
+Proof. exact stream_tiles. Qed.
+
+Theorem send_list_packet_counts_and_starts : forall num fuel l pos m k,
+  nth_error (stream_msgs fuel num pos l) k = Some m ->
+  packet_count m = Some (plen (packet_values m)) /\
+  (1 <= List.length (packet_values m) <= setn_chunk)%nat /\
+  packet_start m = Some (PInt (pos + Z.of_nat k * Z.of_nat setn_chunk)).
+Proof. exact stream_packets. Qed.
+
+(* ------------------------------------------------------------------------------------ *)
 (* Several Server objects (model/ProtoMulti.v): one copy of the client state per server, every op is executed by the
    copy of the server it addresses.  What a server's address receives in a two-server history is exactly the
    single-server run of the ops addressed to it, so every theorem above holds per server whatever the other one is
